@@ -1,0 +1,37 @@
+//go:build verif
+
+package regexp2
+
+// Verification hooks for the scan loop (build tag verif, add-only): used by the harness leg
+// c03-scanmodel under /verif to replay runner.go's scan loop in the Coq model Model/Scan.v.
+
+// VerifAttemptPos runs the compiled program once at pos, exactly like one execute() call of the
+// scan loop, and also reports the Runtextpos execute leaves behind: on failure this is pos, or the
+// later position written into the root backtracking slot by UpdateBumpalong.
+func (re *Regexp) VerifAttemptPos(rt []rune, pos, origin int) (m *Match, endpos int, err error) {
+	r := re.getRunner()
+	defer re.putRunner(r)
+	r.verifSetup(re, rt, origin)
+	r.initMatch(newMatchText(rt))
+	r.startTimeoutWatch()
+	r.Runtextpos = pos
+	execute := re.execute
+	if execute == nil {
+		execute = executeDefault
+	}
+	if err := execute(r); err != nil {
+		return nil, r.Runtextpos, err
+	}
+	endpos = r.Runtextpos
+	if r.runmatch.matchcount[0] > 0 {
+		return r.tidyMatch(false), endpos, nil
+	}
+	r.tidyMatch(true)
+	return nil, endpos, nil
+}
+
+// VerifScanFrom is the scan loop entry (Regexp.run) with an explicit previous match length:
+// -1 for an initial scan, 0 after an empty match (the first candidate moves one further), >0 otherwise.
+func (re *Regexp) VerifScanFrom(rt []rune, textstart, previousMatchLength int) (*Match, error) {
+	return re.run(false, textstart, previousMatchLength, rt, newMatchText(rt))
+}
